@@ -126,7 +126,9 @@ def make_step(rng, w, kind):
     elif kind == "matching":
         texts.apply_fault(rng, w.res, tree, rng.choice(
             ["unknown-key", "unknown-type", "reuse-name",
-             "missing-required", "repeat-single", "bad-key"]))
+             "missing-required", "repeat-single", "bad-key", "not-admitted",
+             "not-admitted", "unnamed-in-plus", "fixed-name-wrong-type",
+             "abstract-direct"]))
     elif kind == "conversion":
         if not texts.apply_fault(rng, w.res, tree, "bad-value"):
             tree["items"].append(["s", {"type": "sdt", "name": None,
@@ -206,10 +208,19 @@ def mutate(config):
     return n[0]
 
 
+_HEX = None
+
+
 def okey(o):
+    """Outcome compared between the used and the fresh schema: the tree, or
+    the error's family, class, line and message (addresses masked)."""
+    global _HEX
     if o[0] == "ok":
         return ["ok", o[1]]
-    return ["reject", o[1], o[2], o[3]]
+    if _HEX is None:
+        import re
+        _HEX = re.compile(r"0x[0-9a-fA-F]+")
+    return ["reject", o[1], o[2], o[3], _HEX.sub("0x?", o[5])]
 
 
 def run_history(ctx, w, steps, record=True):
